@@ -464,7 +464,7 @@ func (c *FnCtx) execInstr(bc *blockCtx, instr ssa.Instruction, rr *regionRun) {
 			rs = append(rs, c.operand(bc, r))
 		}
 		if rr.exits != nil {
-			*rr.exits = append(*rr.exits, exitInfo{st: bc.st, cond: bc.reach, results: rs})
+			*rr.exits = append(*rr.exits, exitInfo{ret: x, st: bc.st, cond: bc.reach, results: rs})
 		}
 	case *ssa.DebugRef:
 	case *ssa.Phi:
